@@ -29,6 +29,8 @@ Round 6: imports are judged per generated half; pathlib / str wrappers around a 
 through; the atomic-publish clause (A) is included.
 Round 7: clause T (a cache file that does not import is regenerated) also here; generated
 module-level helpers called by name; module-level string constants are constant module text.
+Round 8: the protocol is read as python -O reads it; a generated part the cookie covers is written
+on every path that writes the module.
 """
 import ast
 import builtins
